@@ -19,6 +19,8 @@ pub mod c16;
 // --- kit-wire2 (wirekit2): C13, C17, C19 --------------------------------------------------------
 #[cfg(feature = "kit-wire2")]
 pub mod c17;
+#[cfg(feature = "kit-wire2")]
+pub mod c19;
 // --- kit-sim (simkit): C01-C05, C08, C09, C11, C12, C14, C15, C18(in-Sim), C20 ------------------
 #[cfg(feature = "kit-sim")]
 pub mod c03;
@@ -30,6 +32,8 @@ pub mod c01;
 pub mod c02;
 #[cfg(feature = "kit-sim")]
 pub mod c05;
+#[cfg(feature = "kit-sim")]
+pub mod c12;
 #[cfg(feature = "kit-sim")]
 pub mod c09;
 #[cfg(feature = "kit-sim")]
@@ -71,6 +75,8 @@ pub fn dispatch(id: &str, a: &Action) -> i32 {
         // (kit-wire2 arms)
         #[cfg(feature = "kit-wire2")]
         "C17" => act::<c17::C17>(a),
+        #[cfg(feature = "kit-wire2")]
+        "C19" => act::<c19::C19>(a),
         // (kit-sim arms)
         #[cfg(feature = "kit-sim")]
         "C03" => act::<c03::C03>(a),
@@ -82,6 +88,8 @@ pub fn dispatch(id: &str, a: &Action) -> i32 {
         "C02" => act::<c02::C02>(a),
         #[cfg(feature = "kit-sim")]
         "C05" => act::<c05::C05>(a),
+        #[cfg(feature = "kit-sim")]
+        "C12" => act::<c12::C12>(a),
         #[cfg(feature = "kit-sim")]
         "C09" => act::<c09::C09>(a),
         #[cfg(feature = "kit-sim")]
